@@ -75,4 +75,22 @@ def hasBackslashDollar : List Ch → Bool
   | _ :: rest => hasBackslashDollar rest
   | [] => false
 
+/-! ### `translate_pattern`: multi-digit back-references (patterns.py:207-218) -/
+
+/-- `regex.append('\\%s' % pattern[pos])`, then
+`for k in range(1, len(reference)): if total_groups < int(reference[:k + 1]): '[d]'; break` /
+`else: regex.append(d)`.  `n` = `int(reference[:k])`; the result is the number of digits that form
+the reference (`g` = `total_groups`, the groups opened so far). -/
+def brLoop (g : Nat) : Nat → Nat → List Nat → Nat
+  | _, k, [] => k
+  | n, k, d :: r => if g < n * 10 + d then k else brLoop g (n * 10 + d) (k + 1) r
+
+/-- what the emitted text `\\<digits>[<d>]<digits>` encodes: (group number, literal digits) -/
+def resolveM (digits : List Nat) (g : Nat) : Nat × List Nat :=
+  match digits with
+  | [] => (0, [])
+  | d1 :: ds =>
+    let k := brLoop g d1 1 ds
+    ((digits.take k).foldl (fun n d => n * 10 + d) 0, digits.drop k)
+
 end EPV.Regex
